@@ -153,7 +153,7 @@ def run(ctx):
     ctx.touch(fc, len(fc.calls()))
 
     # ---- 1. caps
-    hr = prog.async_body(ENG + '::handle_request')
+    hr = prog.inl(ENG + '::handle_request', keep=r'KademliaRoutingTable::find_closest_nodes$')
     ctx.touch(hr, len(hr.calls()))
     n = 0
     for cs in hr.calls(r'::find_closest_nodes$'):
@@ -366,9 +366,43 @@ def run(ctx):
     dsrc = all(fc.expr(p.args[1]).mentions_call(r'DhtKey::distance$') is not None for p in pushes) if pushes else chain_dist
     ctx.ob('ORDER', 'sort-asc-then-take', asc and oktake, fc.where(), 'candidates sorted ascending by distance (%s) and then take(count) (%s)' % (asc, oktake))
     ctx.ob('ORDER', 'distance-full-width', full and xor and dsrc, dist.where(), 'sort key is DhtKey::distance of each entry (%s), XOR over all 32 bytes (%s)' % (dsrc, full and xor))
-    fn = prog.async_body(ENG + '::find_nodes')
+    fn = prog.inl(ENG + '::find_nodes', keep=r'KademliaRoutingTable::find_closest_nodes$')
     okfn = any(True for c in fn.calls(r'::find_closest_nodes$') if fn.expr(c.args[2]).strip().show() == 'count' and fn.expr(c.args[1]).strip().show() == 'key')
-    ctx.ob('ORDER', 'find_nodes-delegates', okfn, fn.where(), 'DhtCoreEngine::find_nodes returns find_closest_nodes(key, count) unchanged: %s' % okfn)
+    # the answer is the table's answer: either find_nodes hands back find_closest_nodes(key, count) unchanged, or whatever
+    # other engine state it reads (a memo of recent answers, an index ..) is refreshed on EVERY path that follows a change of
+    # the routing table — including the error exit of a routine that had already inserted some nodes
+    derived = sorted(f for f in L.fields_read(prog, fn, ENG, depth=2) if f not in ('routing_table', 'node_id'))
+    stale = []
+    if derived:
+        MUTRT = r'KademliaRoutingTable::(add_node|remove_node)$|KBucket::(add_node|remove_node)$'
+        for mb in prog.bodies.containing('KademliaRoutingTable'):
+            if not mb.root.startswith(ENG + '::') or mb.root.endswith('::new'):
+                continue
+            ib = prog.inl(mb.id, keep=MUTRT) if not mb.parent or mb.is_coroutine else mb
+            muts = ib.calls(MUTRT)
+            if not muts:
+                continue
+            for f in derived:
+                tag = '.%s::%s' % (ENG, f)
+                passn = set()
+                for g in L.guards(ib):
+                    if g.mode in ('write', 'lock') and g.lock_field() == f:
+                        passn.add(g.def_bb)
+                for bi_, kind_, th_ in L.body_field_writes(ib, ENG, f):
+                    if kind_ in ('assign', 'call-dest', 'mut-borrow'):
+                        passn.add(bi_)
+                for m in muts:
+                    starts = [m.target] if m.target is not None else []
+                    okp, wit = L.must_pass(ib, starts, passn, ib.return_blocks())
+                    if not okp:
+                        stale.append((ib, m, f, wit))
+    ctx.ob('ORDER', 'find_nodes-delegates', (okfn and not derived) or (bool(derived) and not stale), (stale[0][1].where() if stale else fn.where()),
+           ('DhtCoreEngine::find_nodes returns find_closest_nodes(key, count) unchanged: %s' % okfn) if not derived else
+           (('find_nodes also reads %s; every path after a routing-table change refreshes it' % derived) if not stale else
+            ('find_nodes answers from engine state `%s`, and %s can change the routing table (line %s) and return (line %s) without refreshing it: the next '
+             'answer for that key is computed from a table that no longer exists' % (stale[0][2], stale[0][0].root.rsplit('::', 1)[-1], stale[0][1].ln,
+                                                                                      stale[0][0].line_of_block(F.block_of_node(stale[0][0], stale[0][3])) if stale[0][3] is not None else '?'))),
+           entry=ENG + '::find_nodes')
     ctx.floor('ORDER', 3)
 
     # ---- 5. reply assembly
@@ -377,6 +411,58 @@ def run(ctx):
     lp = [c for c in lb.calls(r'Vec::<.*>::push$')]
     k = 0
     domains = []
+    # closed list of reasons for leaving a known peer out of the local answer: it is the local node, it was listed already,
+    # it is not connected, it has no address. Anything else (a score, an age, a quota ..) withholds a peer the node knows from
+    # every lookup seeded with this answer — it is then never queried, although it may be the closest holder.
+    def _skip_kind(cd):
+        if cd.kind == 'bool':
+            t = cd.expr
+            if t.mentions_call(r'::is_local_peer_id$') is not None and cd.truth:
+                return 'local node'
+            if t.mentions_call(r'HashSet::<.*>::insert$') is not None and not cd.truth:
+                return 'already listed'
+            if t.mentions_call(r'HashSet::<.*>::contains$') is not None and cd.truth:
+                return 'already listed'
+            if t.strip().show().endswith('.is_connected') and not cd.truth:
+                return 'not connected'
+        if cd.kind == 'disc' and cd.expr is not None:
+            if cd.expr.mentions_call(r'::first$|::get$|::next$|::last$') is not None and 'addresses' in cd.expr.show() and not cd.variant_is(1):
+                return 'no address'
+            if L.mentions_next(cd.expr) is not None and cd.variant_is(0):
+                return 'end of iteration'
+            if L.is_poll_disc(cd):
+                return 'await'
+            if cd.expr.mentions_call(r'::find_nodes') is not None:
+                return 'table lookup failed'
+        return None
+    nskip = 0
+    for c in lp:
+        loops_c = [(h_, ns_) for h_, ns_ in L.source_loops(lb) if c.bb in ns_]
+        if not loops_c:
+            continue
+        h_, ns_ = min(loops_c, key=lambda x: len(x[1]))
+        for n_, e_ in sorted(lb.edge_nodes().items()):
+            if e_[0] not in ns_:
+                continue
+            if lb.blocks[e_[2]]['t']['k'] == 'unreachable':
+                continue        # the impossible arm of a two-variant match
+            reach_ = lb.reachable_from([n_], {h_})
+            if c.bb in reach_:
+                continue
+            # an edge that leaves this element without listing it (it reaches the next iteration or the loop exit)
+            cd_ = F.edge_cond(lb, e_)
+            # only edges that are not themselves behind another skipping edge (report the outermost)
+            if any(lb.dominates(n2_, n_) and n2_ != n_ and c.bb not in lb.reachable_from([n2_], {h_}) for n2_, e2_ in lb.edge_nodes().items() if e2_[0] in ns_):
+                continue
+            kind_ = _skip_kind(cd_)
+            nskip += 1
+            if kind_ is None:
+                m_ = sum(1 for o in ctx.obls if o.key.startswith('local-answer:skip-reason'))
+                ctx.ob('REPLY', 'local-answer:skip-reason#%d' % m_, False, lb.where(lb.line_of_block(e_[0])),
+                       'a known peer is left out of the local answer when `%s`: not one of the accepted reasons (local node, already listed, '
+                       'not connected, no address) — such a peer is never offered to a lookup and never queried' % cd_.brief(100), entry=lb.root)
+    ctx.ob('REPLY', 'local-answer:skip-reasons-closed', nskip >= 4, lb.where(),
+           '%d ways of leaving an entry out of the local answer examined; all are: local node / already listed / not connected / no address' % nskip)
     for c in lp:
         k += 1
         conds = F.dominating_conds(lb, c.bb)
